@@ -163,6 +163,7 @@ prchunk_fill(prch_ctx_t ctx)
 
 	/* initial work, reset the line counters et al */
 	ctx->tot_lno = 0;
+	ctx->cur_lno = 0;
 	/* we just memcpy() the left over stuff to the front and restart
 	 * from there, someone left us a note in __ctx with the left
 	 * over offset */
@@ -174,7 +175,7 @@ prchunk_fill(prch_ctx_t ctx)
 	} else if (LIKELY(ctx->bno > ctx->off)) {
 		size_t rsz = ctx->bno - ctx->off;
 		/* move the top RSZ bytes to the beginning */
-		memcpy(ctx->buf, ctx->buf + ctx->off, rsz);
+		memmove(ctx->buf, ctx->buf + ctx->off, rsz);
 		ctx->bno = rsz;
 		bno = ctx->buf + rsz;
 	} else if (UNLIKELY(ctx->bno == ctx->off)) {
@@ -187,6 +188,15 @@ prchunk_fill(prch_ctx_t ctx)
 	}
 
 yield1:
+	if (UNLIKELY(bno + CHUNK_SIZE > ctx->buf + MAX_NLINES * MAX_LLEN)) {
+		/* no room for another chunk, hand out the lines we've got,
+		 * the rest moves to the front upon the next fill */
+		if (LIKELY(ctx->tot_lno > 0U)) {
+			YIELD(3);
+		}
+		/* one line that doesn't fit the buffer, nothing we can do */
+		return -1;
+	}
 	/* read CHUNK_SIZE bytes */
 	bno += (nrd = read(ctx->fd, bno, CHUNK_SIZE));
 	/* if we came from yield2 then off == __ctx->bno, and if we
@@ -197,7 +207,7 @@ yield1:
 	 * has been called, then off would be 0 and __ctx->bno would be
 	 * the buffer filled so far, if no more bytes could be read then
 	 * we'd proceed processing them (off < __ctx->bno + nrd */
-	if (UNLIKELY(!nrd && off < bno && ctx->cur_lno <= ctx->tot_lno)) {
+	if (UNLIKELY(!nrd && off < bno && off > ctx->buf)) {
 		/* last line then, unyielded :| */
 		set_loff(ctx, ctx->tot_lno, bno - ctx->buf);
 		off = bno;
